@@ -8,8 +8,8 @@
    handlers a delivery runs are exactly the live handlers that should receive the event. *)
 From Coq Require Import List NArith Bool Lia Sorted.
 Import ListNotations.
-Require Import EV.Base EV.ListN EV.Access EV.Query EV.SlotMap EV.Reserve EV.HList EV.Loop EV.World EV.SlotMapGet
-  EV.ArchProofs EV.QueryProofs EV.WorldFrame EV.Store EV.Graph EV.Effects EV.Reach EV.RemoveComp EV.Member.
+Require Import EV.Base EV.ListN EV.Access EV.Query EV.QueryInd EV.SlotMap EV.Reserve EV.HList EV.Loop EV.World EV.SlotMapGet
+  EV.ArchProofs EV.WorldFrame EV.Store EV.Graph EV.Effects EV.Reach EV.RemoveComp EV.Member.
 Require EV.HListProofs.
 Open Scope N_scope.
 
